@@ -34,7 +34,9 @@ func (p *profiling) start() error {
 func (p *profiling) stop() error {
 	if p.cpuProfileFile != nil {
 		pprof.StopCPUProfile()
-		if err := p.cpuProfileFile.Close(); err != nil {
+		file := p.cpuProfileFile
+		p.cpuProfileFile = nil // stop runs after every command: the next one must not close this file again
+		if err := file.Close(); err != nil {
 			return fmt.Errorf("closing cpu profile file: %w", err)
 		}
 	}
